@@ -199,6 +199,21 @@ pub fn gen_nid(rng: &mut Rng, thorough: bool, out: &mut String) {
     }
     nid_deser("é", out);
     nid_deser(&format!("0x{}é", "a".repeat(62)), out);
+    // longer hex strings: every length up to 300 (other things that are written in hex: 33- and
+    // 65-byte public keys, 64-byte keys of enode URLs, signatures, whole records)
+    for len in 71..=300usize {
+        if !thorough && len % 2 == 1 && len % 7 != 0 {
+            continue;
+        }
+        let hs: String = (0..len).map(|_| *rng.pick(b"0123456789abcdef") as char).collect();
+        nid_deser(&hs, out);
+        nid_deser(&format!("0x{hs}"), out);
+    }
+    for len in [512usize, 1024, 65536] {
+        let hs: String = (0..len).map(|_| *rng.pick(b"0123456789abcdefABCDEF") as char).collect();
+        nid_deser(&hs, out);
+        nid_deser(&format!("0x{hs}"), out);
+    }
     // characters outside ASCII that Unicode-aware operations map to hex digits or drop: ligatures
     // (upper-casing U+FB00 gives "FF"), full-width and other scripts' digits and letters, letters
     // that case-fold into ASCII, combining marks, invisible characters, byte-order mark
@@ -332,6 +347,44 @@ pub fn gen_ck(rng: &mut Rng, thorough: bool, out: &mut String) {
         let i = rng.range(16, 31) as usize;
         v[i] = rng.next() as u8;
         secp_inputs.push(v);
+    }
+    // values that compare differently limb by limb than as one number: for every split position the
+    // high part of n incremented / decremented with the low part all zeros / all ones, and n's
+    // high part with the low part all zeros / all ones
+    for k in [1usize, 2, 4, 8, 12, 15, 16, 17, 20, 24, 28, 31] {
+        let hi = &n[..k];
+        let mut up = hi.to_vec();
+        let mut carry = true;
+        for b in up.iter_mut().rev() {
+            if carry {
+                let (v, c) = b.overflowing_add(1);
+                *b = v;
+                carry = c;
+            }
+        }
+        let mut down = hi.to_vec();
+        let mut borrow = true;
+        for b in down.iter_mut().rev() {
+            if borrow {
+                let (v, c) = b.overflowing_sub(1);
+                *b = v;
+                borrow = c;
+            }
+        }
+        for (h, ok) in [(up, !carry), (down, !borrow), (hi.to_vec(), true)] {
+            if !ok {
+                continue;
+            }
+            for fill in [0x00u8, 0xff, 0x01] {
+                let mut v = h.clone();
+                v.resize(32, fill);
+                secp_inputs.push(v);
+            }
+            // the low part of n itself under a changed high part
+            let mut v = h.clone();
+            v.extend_from_slice(&n[k..]);
+            secp_inputs.push(v);
+        }
     }
     // other lengths (k256 accepts 24..=32 bytes and left-pads; everything else is refused)
     for len in [0usize, 1, 16, 23, 24, 25, 31, 33, 48, 64] {
